@@ -453,8 +453,25 @@ def main(argv=None) -> int:
             json.dump({'property': pid, 'tree': cur_tree, 'discharged': sorted(k for k, v in keys.items() if v)}, f, indent=0)
         print(f'baseline updated: {sum(1 for v in keys.values() if v)} obligation keys discharged on tree {cur_tree[:12]}')
 
-    for ln in lines:
+    # one VIOLATION line per distinct obligation / clause (at most 8), the rest summarised
+    shown, seen_names, extra = [], set(), 0
+    i = 0
+    while i < len(lines):
+        ln = lines[i]
+        if ln.startswith('VIOLATION '):
+            detail = lines[i + 1] if i + 1 < len(lines) and lines[i + 1].startswith('  ') else ''
+            key = detail.split(' [')[0].split(' fails')[0][:160]
+            if key in seen_names or len(seen_names) >= 8:
+                extra += 1
+                i += 2 if detail else 1
+                continue
+            seen_names.add(key)
+        shown.append(ln)
+        i += 1
+    for ln in shown:
         print(ln)
+    if extra:
+        print(f'({extra} further violation report(s) of the same obligations / clauses on other paths or scenarios: see the replay directory)')
     print(f'{pid} tier={args.tier}: functions={len(ded)} obligations={n_ob} discharged={n_dis} known-finding={n_known} '
           f'failed={coverage["failed"]} undecided={len(undecided)} out-of-subset={len(oos)} '
           f'bounded-evaluations={evals} violations={len(violations)} wall={wall:.1f}s exit={exit_code}')
